@@ -51,6 +51,30 @@ def record(ver, o, reverse=False):
     return r
 
 
+JSON_SCORE_KEYS = ("baseScore", "temporalScore", "environmentalScore")
+
+
+def check_score_channels(P, pid, o, vec, got):
+    """The scores as reported through the library's OTHER channels -- as_json() (full and
+    minimal) and the score text of rh_vector() -- must be the scores() already judged against
+    the reference (`got`: tuple, None for an undefined v2 score)."""
+    P.ev("score-channels")
+    for minimal in (False, True):
+        ok, d = call(o.as_json, minimal=minimal)
+        if not ok or not isinstance(d, dict):
+            P.violation("score-channels", "%s:as_json-raises:%s" % (pid, exc_name(d) if not ok else "not-a-dict"), {"vector": vec},
+                        minimal=minimal, error=repr(d)[:300])
+            continue
+        for i, k in enumerate(JSON_SCORE_KEYS[:len(got)]):
+            # (a field shown for an UNDEFINED v2 score is outside these properties: C11 speaks of defined scores)
+            if k in d and got[i] is not None and (isinstance(d[k], bool) or not isinstance(d[k], (int, float)) or d[k] != got[i]):
+                P.violation("score-channels", "%s:json-%s-differs-from-scores():%s" % (pid, k, "minimal" if minimal else "full"),
+                            {"vector": vec}, json_value=repr(d[k]), scores=repr(got))
+    ok, rh = call(o.rh_vector)
+    if ok and isinstance(rh, str) and got[0] is not None and rh.split("/")[0] != "%.1f" % got[0]:
+        P.violation("score-channels", "%s:rh_vector-score-text-differs-from-scores()" % pid, {"vector": vec}, rh=rh, scores=repr(got))
+
+
 class MarginHook(object):
     """Wraps a module-level rounding helper (resolved at call time through the module
     global) and records how close any pre-rounding value came to a rounding boundary.
